@@ -56,7 +56,10 @@ impl Indexable for StructExpr {
     fn index(&self, index: Expression) -> Option<Expression> {
         // numeric indices represent the index of the field of the struct
         match index {
-            Expression::Number(n) => self.fields.get(n as usize).cloned(),
+            Expression::Number(n) => usize::try_from(n)
+                .ok()
+                .and_then(|i| self.fields.get(i))
+                .cloned(),
             _ => return None,
         }
     }
@@ -70,7 +73,7 @@ impl Indexable for Expression {
                 .iter()
                 .find(|(k, _)| *k == index)
                 .map(|(k, v)| Expression::Tuple(Box::new((k.clone(), v.clone())))),
-            Expression::List(x) => x.get(index.as_number()? as usize).cloned(),
+            Expression::List(x) => x.get(usize::try_from(index.as_number()?).ok()?).cloned(),
             Expression::Tuple(x) => match index.as_number()? {
                 0 => Some(x.0.clone()),
                 1 => Some(x.1.clone()),
@@ -109,8 +112,14 @@ where
             }
         };
 
-        let x = self.into();
-        let total = x + y;
+        let x: CanonicalAssets = self.into();
+        let total = x.checked_add(y).ok_or_else(|| {
+            Error::InvalidBinaryOp(
+                "add".to_string(),
+                "Assets".to_string(),
+                "amount overflow".to_string(),
+            )
+        })?;
         Ok(Expression::Assets(total.into()))
     }
 
@@ -120,7 +129,10 @@ where
     }
 
     fn neg(self) -> Result<Expression, Error> {
-        let negated = std::ops::Neg::neg(self.into());
+        let value: CanonicalAssets = self.into();
+        let negated = value.checked_neg().ok_or_else(|| {
+            Error::InvalidUnaryOp("neg".to_string(), "amount overflow".to_string())
+        })?;
         Ok(Expression::Assets(negated.into()))
     }
 }
@@ -128,7 +140,13 @@ where
 impl Arithmetic for i128 {
     fn add(self, other: Expression) -> Result<Expression, Error> {
         match other {
-            Expression::Number(y) => Ok(Expression::Number(self + y)),
+            Expression::Number(y) => self.checked_add(y).map(Expression::Number).ok_or_else(|| {
+                Error::InvalidBinaryOp(
+                    "add".to_string(),
+                    format!("{self:?}"),
+                    format!("{y:?} (overflow)"),
+                )
+            }),
             Expression::None => Ok(Expression::Number(self)),
             _ => Err(Error::InvalidBinaryOp(
                 "add".to_string(),
@@ -144,7 +162,9 @@ impl Arithmetic for i128 {
     }
 
     fn neg(self) -> Result<Expression, Error> {
-        Ok(Expression::Number(-self))
+        self.checked_neg().map(Expression::Number).ok_or_else(|| {
+            Error::InvalidUnaryOp("neg".to_string(), format!("{self:?} (overflow)"))
+        })
     }
 }
 
@@ -263,7 +283,13 @@ impl Coerceable for Expression {
                 let all = x
                     .into_iter()
                     .map(|x| x.assets)
-                    .fold(CanonicalAssets::empty(), |acc, x| acc + x);
+                    .try_fold(CanonicalAssets::empty(), |acc, x| acc.checked_add(x))
+                    .ok_or_else(|| {
+                        Error::InvalidUnaryOp(
+                            "into_assets".to_string(),
+                            "amount overflow".to_string(),
+                        )
+                    })?;
 
                 Ok(Expression::Assets(all.into()))
             }
